@@ -237,10 +237,20 @@ func mergeEarlier(run *evid.Run, prop string) {
 	run.Set("earlier_engine", map[string]interface{}{"engine": ev.Engine, "coverage": ev.Coverage, "violations": ev.Violations, "wall_s": ev.WallS})
 	if v, ok := ev.Coverage["evaluations"].(float64); ok {
 		run.Count("earlier_engine_evaluations", int64(v))
+		run.ExtraEvaluations += int64(v)
 	}
 	if v, ok := ev.Coverage["distinct_nontrivial"].(float64); ok {
 		run.Count("earlier_engine_distinct_nontrivial", int64(v))
+		run.ExtraNontrivial += int64(v)
 	}
+	if sm, ok := ev.Coverage["samples"].([]interface{}); ok {
+		for i, x := range sm {
+			if i < 2 {
+				run.Sample(map[string]interface{}{"from_engine": ev.Engine, "sample": x})
+			}
+		}
+	}
+	run.Rule = "ENGINE 1 (" + ev.Engine + "): " + fmt.Sprint(ev.Coverage["rule"]) + " || ENGINE 2 (ipamconc): " + run.Rule + " || evaluations and distinct_nontrivial are the sums over both engines (fingerprints of different engines never coincide)"
 }
 
 // ---------------- C19: race detector ----------------
